@@ -56,11 +56,15 @@ def run(ctx, drv):
     names = sorted(POP_ALGOS | set(ARCHIVE_RESULT) | {"GA", "ES"})
     ncfg = 200 if ctx.quick() else 2500
     cfgs = runs.gen_configs(rng, ncfg, names=names, sizes=(4, 5, 6, 8, 9, 12, 13), nobjs_choices=(1, 2, 2, 3, 3, 4, 5), constrained_rate=0.45)
-    for cfg in cfgs:
+    for ci, cfg in enumerate(cfgs):
         name, spec = cfg["name"], cfg["spec"]
         budget = cfg["size"] * rng.choice([4, 6, 9])
-        tr, alg, err = runs.execute(cfg, [budget])
-        inp = runs.describe(cfg, budget=budget)
+        warm = ci % 8 == 3
+        if warm:
+            # a warm start: the whole initial population consists of solutions the user evaluated earlier
+            cfg = dict(cfg, injected=cfg["size"] + 1)
+        tr, alg, err = runs.execute(cfg, [budget], **({"injected_evaluated": True} if warm else {}))
+        inp = runs.describe(cfg, budget=budget, **({"injected_solutions_already_evaluated": True} if warm else {}))
         if err is not None:
             runs.note_aborted(ctx, cfg, err)
             continue
